@@ -63,6 +63,9 @@ struct SubState {
     last_delivery: Option<Instant>,
     closed: bool,
     full_windows_held: u64,
+    /// the subscriber is deliberately sitting on a full window right now
+    holding: bool,
+    unacked: u64,
 }
 
 fn key_of(kind: &Kind, e: &MEvent) -> Option<String> {
@@ -172,6 +175,11 @@ async fn subscriber(world: Arc<Mutex<World>>, spec: Arc<SubSpec>, st: Arc<Mutex<
             }
         }
         // a full window is sometimes left unacknowledged for 100 ms: anything delivered meanwhile exceeds the window
+        {
+            let mut s = st.lock().unwrap();
+            s.unacked = unacked.len() as u64;
+            s.holding = hold_until.map(|t| Instant::now() < t).unwrap_or(false);
+        }
         if unacked.len() as u64 >= spec.window {
             match hold_until {
                 // the first full window of a subscription (nothing acknowledged yet) one time in two, later ones rarely
@@ -179,7 +187,7 @@ async fn subscriber(world: Arc<Mutex<World>>, spec: Arc<SubSpec>, st: Arc<Mutex<
                     hold_until = Some(Instant::now() + Duration::from_millis(if holds_done == 0 && spec.stall_ms > 0 { spec.stall_ms } else { 100 }));
                     holds_done += 1;
                     held_this_window = true;
-                    st.lock().unwrap().full_windows_held += 1;
+                    { let mut s = st.lock().unwrap(); s.full_windows_held += 1; s.holding = true; }
                     continue;
                 }
                 Some(t) if Instant::now() < t => continue,
@@ -200,6 +208,14 @@ async fn subscriber(world: Arc<Mutex<World>>, spec: Arc<SubSpec>, st: Arc<Mutex<
     }
 }
 fn ev_is_none_or(rng: &mut Rng) -> bool { rng.chance(1, 2) }
+
+fn quiet(spec: &SubSpec, s: &SubState, t0: Instant) -> bool {
+    // broadcast-lag runs push thousands of events through a small window on a loaded machine: a much longer silence
+    // is required there before "nothing arrives any more" is believed
+    let need = Duration::from_secs(if spec.stall_ms > 0 { 20 } else { 3 });
+    let silent = s.last_delivery.map(|t| t.elapsed() > need).unwrap_or(t0.elapsed() > need);
+    silent && !s.holding && s.unacked < spec.window
+}
 
 struct Ctx<'a> {
     node: &'a ActorRef<ClusterActor>,
@@ -377,9 +393,11 @@ async fn run_case(rep: &mut Report, cx: &mut Ctx<'_>, case_seed: u64, parts: &[P
         tokio::time::sleep(Duration::from_millis(50)).await;
         let w = cx.world.lock().unwrap();
         let all_done = subs.iter().all(|(spec, st, _)| { let s = st.lock().unwrap(); expected_for(spec, &s, &w).is_empty() || s.closed });
-        let idle = subs.iter().all(|(_, st, _)| st.lock().unwrap().last_delivery.map(|t| t.elapsed() > Duration::from_secs(3)).unwrap_or(t0.elapsed() > Duration::from_secs(3)));
+        // quiet = the server has credit (fewer than `window` unacknowledged, subscriber not sitting on a full window)
+        // and still nothing has arrived for 3 s
+        let idle = subs.iter().all(|(spec, st, _)| quiet(spec, &st.lock().unwrap(), t0));
         drop(w);
-        if all_done || (idle && t0.elapsed() > Duration::from_secs(3)) || t0.elapsed() > Duration::from_secs(30) { break; }
+        if all_done || (idle && t0.elapsed() > Duration::from_secs(3)) || t0.elapsed() > Duration::from_secs(if lag_mode { 120 } else { 60 }) { break; }
     }
     // ---- verdicts ---------------------------------------------------------------------------------------
     let w = cx.world.lock().unwrap();
@@ -392,7 +410,10 @@ async fn run_case(rep: &mut Report, cx: &mut Ctx<'_>, case_seed: u64, parts: &[P
             rep.violation(&format!("{sig}:{kind_name}:rf{}", cx.rf), format!("{what} [{:?}, window {}]", spec.kind, spec.window), witness.clone());
         }
         let missing = expected_for(spec, &s, &w);
-        if !missing.is_empty() && s.violations.is_empty() {
+        if !missing.is_empty() && s.violations.is_empty() && !quiet(spec, &s, t0) {
+            // the run was cut off (60 s) while the subscription was still being served or the subscriber was stalling
+            rep.count("subscriptions_not_quiescent_at_cutoff", 1);
+        } else if !missing.is_empty() && s.violations.is_empty() {
             let path = if cx.rf > 1 { "replica-confirm-path" } else { "coordinator-path" };
             rep.violation(&format!("C09:confirmed-event-never-delivered:{kind_name}:{path}"), format!("{} confirmed matching events were not delivered although everything was acknowledged and nothing arrived for 3 s; first missing {:?} [{:?}, window {}, {} delivered]", missing.len(), missing.first(), spec.kind, spec.window, s.count), witness.clone());
         }
